@@ -31,7 +31,7 @@
    2..MaxK and checks the cross-consistency lemmas of section "Lemmas" at every k (two independent
    definitions of the same notion must agree); NumTheoryGen walks the same counter to print
    expected-result tables, NumTheoryTrace uses it as the line number of the recorded calls. *)
-EXTENDS Integers, Sequences, FiniteSets, TLC
+EXTENDS Integers, Sequences, FiniteSets, TLC, GroupGens
 
 CONSTANTS MaxK,      \* last value of the counter in the model-checking / generation walk
           Stride     \* the walk is split into Stride interleaved chains (k, k+Stride, ...) so that TLC's workers share it
@@ -155,13 +155,21 @@ IsMod(r, x, p) == r \in 0..(p - 1) /\ (x - r) % p = 0          \* |x| <= 2^30; n
 Fold(x, b, c) == (x % Pow2(b)) + (x \div Pow2(b)) * c
 
 -----------------------------------------------------------------------------
-(* zkproof.Group: P a safe prime, Order = (P-1)/2, bases G = 0x41424344^0x45464748, H = 0x494A4B4C^0x4D4E4F50 (mod P).
+(* zkproof.Group: P a safe prime, Order = (P-1)/2. Since the repair of D50 the bases G and H are DERIVED from P by hashing
+   (SHA-256, not expressible here): the specification takes what BuildGroup of the tree under check returns (module GroupGens,
+   written by `nt groups` at check time; the committed copy is that of the tree at the time of writing) and states the
+   CONTRACT instead: BuildGroup refuses a prime whose subgroup of squares has fewer than two elements besides 1 (P = 5, D57),
+   and otherwise returns two DIFFERENT elements of order (P-1)/2.
    Group.Exp(ret, name, exp) folds a negative exponent by adding the order once, refuses (panics)
    when the folded exponent is not below the order, and otherwise returns base^folded.  Its domain
    is therefore -Order < exp < Order; there the result must be the signed power of the base. *)
 GroupOrder(P) == (P - 1) \div 2
-GroupG(P) == PowMod(1094861636 % P, 1162233672, P)
-GroupH(P) == PowMod(1229605708 % P, 1296977744, P)
+GroupKnown(P) == P \in DOMAIN CodeGens
+GroupBuilt(P) == CodeGens[P][1]
+GroupG(P) == CodeGens[P][2]
+GroupH(P) == CodeGens[P][3]
+GroupSquares(P) == { (x * x) % P : x \in 1..(P - 1) } \ {1}
+GroupBuildable(P) == P >= 7              \* for a safe prime: at least two squares besides 1
 GroupExpInDomain(e, q) == -q < e /\ e < q
 GroupFold(e, q) == IF e < 0 THEN e + q ELSE e
 GroupExp(g, e, q, P) == PowMod(g, GroupFold(e, q), P)            \* for e in the domain
@@ -188,15 +196,24 @@ LemmaSqrtFactors(n) == \A m \in 3..(n - 1) : (IsSqrtFactor(n) /\ IsSqrtFactor(m)
 LemmaFold(p) == LET b == FastModB(p) c == FastModC(p) IN
                 /\ c >= 1 /\ c <= p /\ p = Pow2(b) - c
                 /\ \A x \in 0..(4 * Pow2(b)) : IsMod(Fold(x, b, c) % p, x, p)
-LemmaGroup(P) == IsSafePrime(P) =>
+LemmaGroup(P) == (IsSafePrime(P) /\ GroupKnown(P)) =>
                     LET q == GroupOrder(P) IN
-                    \A g \in {GroupG(P), GroupH(P)} \ {0} :      \* 0x41424344 is a multiple of 11: BuildGroup(11) has G = 0
-                       /\ PowMod(g, q, P) = 1
-                       /\ \A e \in (1 - q)..(q - 1) : GroupExp(g, e, q, P) = ModPowSigned(g, e, P)
+                    /\ GroupBuilt(P) <=> GroupBuildable(P)
+                    /\ GroupBuildable(P) <=> Cardinality(GroupSquares(P)) >= 2
+                    /\ GroupBuilt(P) =>
+                          /\ GroupG(P) # GroupH(P)
+                          /\ \A g \in {GroupG(P), GroupH(P)} :
+                                /\ g \in GroupSquares(P)                 \* order (P-1)/2: a square other than 1
+                                /\ PowMod(g, q, P) = 1
+                                /\ \A e \in (1 - q)..(q - 1) : GroupExp(g, e, q, P) = ModPowSigned(g, e, P)
+\* every safe prime of the walk is in the table (the table is as long as the walk)
+LemmaGroupCovered(P) == (IsSafePrime(P) /\ P >= 5) => GroupKnown(P)
 LemmaSafe(p) == IsSafePrime(p) <=> (IsPrime(p) /\ \E q \in 2..p : IsPrime(q) /\ p = 2 * q + 1)
 
 Lemmas == /\ LemmaEuler(k) /\ LemmaJacobiZero(k) /\ LemmaJacobiSquare(k) /\ LemmaInverse(k) /\ LemmaPow(k)
-          /\ LemmaModPow(k) /\ LemmaFourSquares(k) /\ LemmaFold(k) /\ LemmaGroup(k) /\ LemmaSafe(k)
+          /\ LemmaModPow(k) /\ LemmaFourSquares(k) /\ LemmaFold(k) /\ LemmaSafe(k)
+\* what BuildGroup of the tree under check returned (GroupGens) honours the contract: a finding about the CODE when violated
+GroupContract == LemmaGroup(k) /\ LemmaGroupCovered(k)
 LemmasPairs == (k <= 40) => (LemmaCRT(k) /\ LemmaSqrtFactors(k))
 
 Init == k \in 2..(1 + Stride)
